@@ -19,7 +19,7 @@ from fractions import Fraction as F
 
 from ..loader import AnalysisError
 from ..pe import (ConfigRejected, PE, Tensor, Obj, explore, PyRaise, Func,
-                  show_term)
+                  show_term, Var, Mock)
 from .. import qref, quant, pwa
 from ..qir import Fwd, mk_app, simplify_app, Eval, Env
 from ..nf import NF, show
@@ -193,14 +193,65 @@ def rule_single_source(rep, repo, mod):
              "%s" % e)
     return
   v = obj.attrs.get("qnoise_factor")
-  rep.check(isinstance(v, Tensor) and v.term == FATOM, "R2", unit,
-            "variable-not-initialised-from-current-value",
+  rep.check(isinstance(v, Var) and Fwd()(v.term) == NF.atom(FATOM), "R2",
+            unit, "variable-not-initialised-from-current-value",
             "after build(use_variables=True) self.qnoise_factor is %r, not "
             "a variable holding the previous value" % (v,),
             loc=bq.loc(base.methods["build"]))
   rep.check(obj.attrs.get("built") is True, "R2", unit, "built-flag",
             "build() does not set self.built", loc=bq.loc(
                 base.methods["build"]))
+  # multi-step: a quantizer that was already called (built with python-float
+  # storage) is handed to the scheduler; after set_quantizers its factor
+  # must be variable-backed, and set_qnoise_factor must write into that same
+  # variable (a traced training step reads the variable, not the attribute)
+  cb, sc = sched_class(repo)
+  for qcls in KNOB_CLASSES:
+    pe = PE(repo)
+    q = pe.call(pe.lookup_global(qcls, qm), [], {})
+    try:
+      pe.call(q, [pe.x_input()], {})
+    except PyRaise:
+      continue
+    unit2 = "%s::QNoiseScheduler.set_quantizers" % cb.relpath
+    rep.check(not isinstance(q.attrs.get("qnoise_factor"), Var), "R2", unit2,
+              "float-mode-expected",
+              "a quantizer called without use_variables should keep a plain "
+              "factor", instance=qcls)
+    s_obj = make_sched(pe, cb, sc)
+    s_obj.attrs["quantizers"] = [q]
+    try:
+      pe.call(pe.getattr(s_obj, "set_quantizers"), [], {})
+    except PyRaise as e:
+      rep.fail("R2", unit2, "set_quantizers-raises", "raises %s" % e,
+               instance=qcls)
+      continue
+    v = q.attrs.get("qnoise_factor")
+    rep.check(isinstance(v, Var), "R2", unit2,
+              "built-quantizer-not-converted-to-variable",
+              "after set_quantizers() the qnoise_factor of an already built "
+              "%s is %r, not a tf.Variable: later updates only rebind a "
+              "python attribute and never reach a traced training step" %
+              (qcls, v), loc=cb.loc(sc.methods["set_quantizers"]),
+              instance=qcls)
+    if isinstance(v, Var):
+      rep.check(Fwd()(v.term) == NF.const(0), "R2", unit2,
+                "pretraining-factor-not-zero",
+                "set_quantizers must start from qnoise_factor 0, got %s" %
+                show(Fwd()(v.term)), instance=qcls)
+      g = Tensor(("sym", "g"), ())
+      pe.call(pe.getattr(s_obj, "set_qnoise_factor"), [q, g], {})
+      v2 = q.attrs.get("qnoise_factor")
+      rep.check(v2 is v and Fwd()(v.term) == NF.sym("g"), "R2", unit2,
+                "update-does-not-write-the-variable",
+                "set_qnoise_factor(q, g) leaves the variable holding %s "
+                "(same object: %s)" % (show(Fwd()(v.term)), v2 is v),
+                instance=qcls)
+      rep.check(s_obj.attrs.get("qnoise_factor") is g or
+                isinstance(s_obj.attrs.get("qnoise_factor"), Tensor), "R2",
+                unit2, "callback-factor-not-recorded",
+                "the callback does not record the factor it applied",
+                instance=qcls)
 
 
 # ---------------------------------------------------------------------------
